@@ -158,7 +158,7 @@ func isHeapKey(k string) bool {
 
 func fullName(fn *types.Func) string { return fn.Origin().FullName() }
 
-var pureStd = map[string]bool{"strings": true, "strconv": true, "math": true, "path": true, "path/filepath": true, "unicode": true,
+var pureStd = map[string]bool{"time": true, "strings": true, "strconv": true, "math": true, "path": true, "path/filepath": true, "unicode": true,
 	"net/url": true, "sort": false, "bytes": true, "slices": false, "github.com/samber/lo": false}
 
 func (e *Exec) callFunc(fn *types.Func, recvExpr ast.Expr, sel *types.Selection, call *ast.CallExpr, c *Ctx, want int, inst []types.Type) []Term {
@@ -242,7 +242,7 @@ func (e *Exec) dispatch(fn *types.Func, recv *Term, args []Term, call *ast.CallE
 	if e.prog.isPure(fn) {
 		return e.pureCall(name, recv, args, call, c)
 	}
-	if fi := e.prog.funcs[name]; fi != nil && e.canInline(name) {
+	if fi := e.prog.funcs[name]; fi != nil && e.canInline(name) && strings.HasPrefix(fi.Pkg.PkgPath, "lunar/") {
 		return e.inline(fi, recv, args, call, c, inst, sel)
 	}
 	if pureStd[pkgPath] {
@@ -313,7 +313,13 @@ func (e *Exec) devirtTarget(fn *types.Func, sig *types.Signature) *types.Func {
 	if !ok {
 		return nil
 	}
-	tgt, ok := e.prog.devirt[n.Obj().Name()]
+	tgt, ok := "", false
+	if e.topCon != nil && e.topCon.Devirt != nil {
+		tgt, ok = e.topCon.Devirt[n.Obj().Name()]
+	}
+	if !ok {
+		tgt, ok = e.prog.devirt[n.Obj().Name()]
+	}
 	if !ok {
 		return nil
 	}
@@ -919,6 +925,35 @@ func (e *Exec) applyContract(ct *Contract, fn *types.Func, sig *types.Signature,
 		name := fmt.Sprintf("%s#pre[%s:%s]", e.fnName, cname, rq.Label)
 		e.assert(c.st, name, "precondition", phi, rq.Text, e.prog.pos(call), e.modelVars(c.st, c.fr))
 	}
+	// termination of self-recursion: the measure decreases and is bounded below
+	if ct == e.topCon && ct.Decr != nil {
+		sc := &Ctx{st: c.st, fr: cfr, spec: true, bound: bound, old: pre}
+		newM := e.eval(ct.Decr.Expr, sc)
+		top := c.fr
+		for top != nil && !top.top {
+			top = top.parent
+		}
+		if top != nil && top.entry != nil {
+			oc := &Ctx{st: top.entry, fr: top, spec: true, old: top.entry}
+			oldM := e.eval(ct.Decr.Expr, oc)
+			e.assert(c.st, fmt.Sprintf("%s#decreases[%s]", e.fnName, ct.Decr.Label), "termination", fmt.Sprintf("(and (<= 0 %s) (< %s %s))", newM.S, newM.S, oldM.S), ct.Decr.Text, e.prog.pos(call), e.modelVars(c.st, c.fr))
+		}
+	}
+	if ct.Allocs {
+		at := &Type{K: KGMap, Key: tInt, Elem: tBool}
+		oldA := e.get(c.st, "$alloc", at)
+		newA := e.havocKey(c.st, "$alloc", at)
+		e.assume(c.st, fmt.Sprintf("(forall ((o!a Int)) (! (=> (select %s o!a) (select %s o!a)) :pattern ((select %s o!a))))", oldA.S, newA.S, oldA.S))
+		// objects allocated by the callee are of the kinds it declares
+		var kinds []string
+		for _, k := range ct.AllocT {
+			e.allocKinds[k] = true
+			kinds = append(kinds, fmt.Sprintf("(= (rtype o!a) %d)", e.rtypeTag(k)))
+		}
+		if len(kinds) > 0 {
+			e.assume(c.st, fmt.Sprintf("(forall ((o!a Int)) (! (=> (and (select %s o!a) (not (select %s o!a))) (or %s)) :pattern ((select %s o!a))))", newA.S, oldA.S, strings.Join(kinds, " "), newA.S))
+		}
+	}
 	// frame
 	if ct.Kind == "func" && !ct.HasMod {
 		e.note("callee %s has a contract without a modifies clause: heap havocked at the call", cname)
@@ -1134,7 +1169,30 @@ func (e *Exec) specCall(call *ast.CallExpr, c *Ctx) Term {
 		case "allocated":
 			v := e.eval(call.Args[0], c)
 			al := e.get(c.st, "$alloc", &Type{K: KGMap, Key: tInt, Elem: tBool})
-			return Term{fmt.Sprintf("(select %s %s)", al.S, v.S), tBool}
+			return Term{fmt.Sprintf("(and (select %s %s) (= (rtype %s) %d))", al.S, v.S, v.S, e.rtypeTag(refKind(v.T))), tBool}
+		case "second":
+			// second(x.M(args)): the second result of a pure two-result method
+			if inner, ok := call.Args[0].(*ast.CallExpr); ok {
+				if se, ok := inner.Fun.(*ast.SelectorExpr); ok {
+					base := e.eval(se.X, c)
+					var args []Term
+					for _, a := range inner.Args {
+						args = append(args, e.eval(a, c))
+					}
+					if base.T.G != nil {
+						obj, _, _ := types.LookupFieldOrMethod(base.T.G, true, nil, se.Sel.Name)
+						if fn, ok := obj.(*types.Func); ok {
+							sig := fn.Type().(*types.Signature)
+							if sig.Results().Len() > 1 {
+								rt := e.prog.TypeOf(sig.Results().At(1).Type(), base.T.Subst)
+								return e.uninterp(fmt.Sprintf("fn!%s!1", mangle(shortName(fullName(fn)))), append([]Term{base}, args...), rt)
+							}
+						}
+					}
+				}
+			}
+			e.errorf("%s: second() needs a pure two-result method call", e.curPos)
+			return Term{"false", tBool}
 		case "allocated_at_entry":
 			v := e.eval(call.Args[0], c)
 			st0 := c.old
@@ -1142,7 +1200,7 @@ func (e *Exec) specCall(call *ast.CallExpr, c *Ctx) Term {
 				st0 = c.st
 			}
 			al := e.get(st0, "$alloc", &Type{K: KGMap, Key: tInt, Elem: tBool})
-			return Term{fmt.Sprintf("(select %s %s)", al.S, v.S), tBool}
+			return Term{fmt.Sprintf("(and (select %s %s) (= (rtype %s) %d))", al.S, v.S, v.S, e.rtypeTag(refKind(v.T))), tBool}
 		case "held":
 			// held(x.mutex)
 			if se, ok := call.Args[0].(*ast.SelectorExpr); ok {
@@ -1369,3 +1427,19 @@ func (e *Exec) resultBindings(ct *Contract, fr *Frame, r *Ret) map[string]Term {
 }
 
 var _ = token.ADD
+
+// refKind: the allocation kind of a reference type (struct short name, "map", "chan", "cell").
+func refKind(t *Type) string {
+	switch t.K {
+	case KRef:
+		if t.Name != "" {
+			return shortStructName(t.Name)
+		}
+		return "cell"
+	case KMap:
+		return "map"
+	case KChan:
+		return "chan"
+	}
+	return "cell"
+}
